@@ -924,3 +924,34 @@ pub fn table_iter_cursor(options: &DbOptions, ops: &[&str], target: (&[u8], u64)
     }
     Some(out)
 }
+
+/// (offset, size) of every data block of table file 1, read from its index block.
+pub fn table_block_handles(options: &DbOptions) -> Option<Vec<(u64, u64)>> {
+    let path = crate::file_names::FileNameHandler::new(options.db_path().to_string()).get_table_file_path(1);
+    let file = options.filesystem_provider().open_file(&path).ok()?;
+    let table = Table::open(options.clone(), file).ok()?;
+    let mut it = table.index_block_for_verif().iter();
+    let mut out = vec![];
+    it.seek_to_first().ok()?;
+    while it.is_valid() {
+        let (_, raw) = it.current()?;
+        let h = crate::tables::verif_access::BlockHandle::try_from(raw).ok()?;
+        out.push((h.get_offset(), h.get_size()));
+        it.next();
+    }
+    Some(out)
+}
+
+/// Seek twice to `target` with one iterator over table file 1; returns for each seek whether it reported an error,
+/// and the key under the cursor after the second seek.
+pub fn table_iter_seek_twice(options: &DbOptions, target: (&[u8], u64)) -> Option<(bool, bool, Option<(Vec<u8>, u64)>)> {
+    let path = crate::file_names::FileNameHandler::new(options.db_path().to_string()).get_table_file_path(1);
+    let file = options.filesystem_provider().open_file(&path).ok()?;
+    let table = Arc::new(Table::open(options.clone(), file).ok()?);
+    let mut it = Table::iter_with(Arc::clone(&table), ReadOptions { fill_cache: false, snapshot: None });
+    let k = InternalKey::new_for_seeking(target.0.to_vec(), target.1);
+    let e1 = it.seek(&k).is_err();
+    let e2 = it.seek(&k).is_err();
+    let cur = if it.is_valid() { it.current().map(|(k, _)| (k.get_user_key().to_vec(), k.get_sequence_number())) } else { None };
+    Some((e1, e2, cur))
+}
